@@ -2,6 +2,7 @@ import MosnVerif.Lemmas.HealthFlags
 import MosnVerif.Lemmas.HealthRegistry
 import MosnVerif.Lemmas.HealthCheck
 import MosnVerif.Lemmas.HealthLoop
+import MosnVerif.Lemmas.HealthDispatch
 import MosnVerif.Lemmas.HealthLifecycleRef
 /-!
 # C16 — host health state is never lost, and thresholds are exact (property theorems only)
@@ -514,6 +515,58 @@ example : (HealthLoop.run genPolicy (Loop.init genPolicy) [.top, .issue, .timeou
 example : (HealthLoop.run genPolicy (Loop.init genPolicy) [.issue, .top, .answer true, .timeout]).log = [.success] := by decide
 
 end CheckerLoop
+
+section Dispatch
+open MosnVerif.Model.HealthDispatch MosnVerif.Model.HealthCheck
+
+/-- **one_check_one_result**: the dispatch loop of `sessionChecker.Start` as regenerated from the source (ordered actions
+of every select branch), for EVERY schedule of interval-timer firings, timeout-timer firings (possible between any two
+actions of the loop goroutine, i.e. during handlers of any duration; a fired timer is not taken back by a later Stop),
+answers (of the check in flight or of older ones, in any order), loop progress and Stop: the handler calls, tagged with the
+check they are accounted to, have strictly increasing check ids (NO check produces two results: an answered check's timeout
+is never counted as well), every one is an event the loop really accepted for a check that was really performed, every check
+was issued once, and every performed check whose turn is over (`id < checkID`) has produced its result. -/
+theorem one_check_one_result (evs : List HealthDispatch.Ev) :
+    let s := HealthDispatch.run genProg (D.init genProg) evs
+    (ids s).Pairwise (· > ·) ∧ s.issued.Pairwise (· > ·) ∧
+    (∀ e ∈ s.log, e ∈ s.outcomes ∧ e.1 ∈ s.issued) ∧
+    (∀ i ∈ s.issued, i < s.checkID → i ∈ ids s) ∧ s.parked = [] := by
+  rw [genProg_real]
+  have h := inv_run _ evs inv_init
+  exact ⟨h.log_sorted, h.issued_sorted, fun e he => ⟨h.log_out e he, h.log_issued e he⟩, h.complete, h.parked⟩
+
+/-- **dispatch_threshold_exact**: `threshold_exact` lifted from handler sequences to real executions of the loop: for every
+schedule and all thresholds ≥ 1, what the callbacks see is the run-length reference applied to the per-check results
+(one per check, by `one_check_one_result`). -/
+theorem dispatch_threshold_exact (u h : Nat) (hu : 1 ≤ u) (hh : 1 ≤ h) (flag0 : Bool) (evs : List HealthDispatch.Ev) :
+    HealthCheck.run u h (St.init flag0) (results (HealthDispatch.run genProg (D.init genProg) evs)) =
+      spec u h flag0 [] (results (HealthDispatch.run genProg (D.init genProg) evs)) :=
+  threshold_exact u h hu hh flag0 _
+
+/-- **negation witness, stop after the handlers**: check 1 is answered healthy in time, its timeout timer fires while the
+handler runs, the loop stops it afterwards — and then consumes the parked expiry: check 1 is counted twice
+(success, then timeout) and the freshly armed next check is cancelled. -/
+theorem late_stop_counts_twice :
+    (HealthDispatch.run lateStopProg (D.init lateStopProg)
+      [.fireCheck, .answer 1 true, .fireTimeout, .act, .act, .act, .recvTimeout, .act, .act, .act, .act]).log
+      = [(1, .timeout), (1, .success)] := by decide
+
+/-- **negation witness, next check armed before the handlers**: the interval timer fires while the handler of check 1
+runs, check 2 is issued and its timeout expires while the loop is still busy (parked); the loop then accepts the answer of
+check 2 AND the parked expiry: check 2 is counted twice. -/
+theorem early_arm_counts_twice :
+    (HealthDispatch.run earlyArmProg (D.init earlyArmProg)
+      [.fireCheck, .answer 1 true, .act, .act, .fireCheck, .fireTimeout, .act, .answer 2 true, .act, .act, .act,
+       .recvTimeout, .act, .act, .act, .act]).log = [(2, .timeout), (2, .success), (1, .success)] := by decide
+
+-- non-vacuity: the same schedule on the current program counts check 1 once, and a timed-out check once
+example : (HealthDispatch.run genProg (D.init genProg)
+    [.fireCheck, .answer 1 true, .fireTimeout, .act, .act, .act, .recvTimeout, .act, .act, .act, .act]).log = [(1, .success)] := by decide
+example : (HealthDispatch.run genProg (D.init genProg)
+    [.fireCheck, .fireTimeout, .act, .act, .act, .act, .answer 1 true, .fireCheck, .answer 2 false, .act, .act, .act]).log
+    = [(2, .failure), (1, .timeout)] := by decide
+
+end Dispatch
 
 section Lifecycle
 open MosnVerif.Model.HealthLifecycle MosnVerif.Model.HealthCheck MosnVerif.Gen.HealthLifecycle
